@@ -82,6 +82,9 @@ type Engine struct {
 	// mapOrderPolicy: order in which `range` visits a map (Go leaves it unspecified):
 	// 0 insertion order, 1 reversed, 2 rotated by one, 3 odd positions first
 	mapOrderPolicy int
+	realQuote      bool
+	reflValT       types.Type
+	reflRtypePtr   types.Type
 	initMode       bool
 	curInit        *ssa.Function
 	pkgs           []*packages.Package
